@@ -35,17 +35,18 @@ theorem la_valid_pf {nVals : Nat} {h : Hist} (hv : Valid nVals h) : PF h := by
       rw [la_ev_snoc_self] at hp
       exact hn.parents_lt p hp
 
+theorem la_valid_take {nVals : Nat} {h : Hist} (hv : Valid nVals h) (k : Nat) : Valid nVals (h.take k) := by
+  induction hv with
+  | nil => simpa using Valid.nil
+  | @snoc h e hv' hn ih =>
+    by_cases hk : k ≤ h.length
+    · rw [List.take_append_of_le_length hk]; exact ih
+    · rw [List.take_of_length_le (by simp; omega)]; exact Valid.snoc hv' hn
+
 theorem la_valid_prefix {nVals : Nat} {h ext : Hist} (hv : Valid nVals (h ++ ext)) : Valid nVals h := by
-  induction ext using List.reverseRecOn generalizing h with
-  | nil => simpa using hv
-  | append_singleton ext e ih =>
-    rw [← List.append_assoc] at hv
-    generalize hk : (h ++ ext) ++ [e] = k at hv
-    cases hv with
-    | nil => simp at hk
-    | @snoc h' e' hv' _ =>
-      have := List.append_inj' hk (by simp)
-      exact ih (this.1 ▸ hv')
+  have := la_valid_take hv h.length
+  rwa [List.take_left'] at this
+  rfl
 
 /-! ### ancestry -/
 
